@@ -62,7 +62,10 @@ def calculate_normal_3d(polygon):
         normal[0] += minus[1] * plus[2]
         normal[1] += minus[2] * plus[0]
         normal[2] += minus[0] * plus[1]
-    if near_zero(normal):
+    # Scale-free degeneracy test: the area vector is compared with the squared
+    # extent of the polygon (an absolute threshold rejects polygons of size 1e-4).
+    extent_sq = np.max(np.abs(np.asarray(polygon) - polygon[0])) ** 2
+    if extent_sq == 0 or near_zero(normal / extent_sq):
         raise ValueError("No normal found")
     else:
         return normal
